@@ -118,7 +118,7 @@ func init() {
 		NotDecided:  "the four-goroutine hand-off under all schedules; behaviour when brokered connections are not established sequentially (excluded by the API contract).",
 	})
 	register(&propDef{ID: "C09",
-		Rules: []func(*Ctx){ruleRunNonBlocking, ruleStreamClose,
+		Rules: []func(*Ctx){ruleLockPair, ruleLockOrder, ruleRunNonBlocking, ruleStreamClose,
 			ruleLockBlock, scoped(ruleBoundScoped, fnIn("MuxBroker.Accept", "MuxBroker.Run", "MuxBroker.timeoutWait", "MuxBroker.Dial", "GRPCBroker.DialWithOptions", "GRPCBroker.knock", "GRPCBroker.timeoutWait", "GRPCBroker.Run", "GRPCBroker.listenForKnocks", "GRPCBroker.Accept", "grpcmux.GRPCServerMuxer.session")),
 			ruleRes, ruleExpiry, ruleClose1,
 		},
@@ -191,7 +191,7 @@ func init() {
 		NotDecided:  "pointer equality of returned values across calls (follows from the cache structure but is a run-time fact).",
 	})
 	register(&propDef{ID: "C20",
-		Rules:       []func(*Ctx){ruleGetOrCreate, ruleGuard, ruleClose1, ruleLockBlock, ruleNilGuard, ruleAssert},
+		Rules:       []func(*Ctx){ruleLockPair, ruleLockOrder, ruleGetOrCreate, ruleGuard, ruleClose1, ruleLockBlock, ruleNilGuard, ruleAssert},
 		Technique:   "lockset analysis with inferred guards and caller summaries, field-write discipline, atomic-only id counters, close-once classification",
 		Explanation: "Decides: every access to a shared field named by the property's anchors holds the mutex inferred as its guard, in its own lock region or in all callers (reviewed happens-before exceptions for reads only); every other struct-field write outside constructors is under a mutex, inside sync.Once.Do or in the reviewed table; the id counters are touched only through sync/atomic; every close() is inside Once.Do, nil-test-and-clear under a mutex, a local single owner, or a reviewed shared close (R-CLOSE1); no blocking under a mutex; no unguarded optional-pointer dereference; no panicking assertion on plugin data.",
 		NotDecided:  "races the lockset abstraction cannot express (happens-before through channels beyond the tabled exceptions), races inside dependencies, uniqueness of ids beyond 'atomic add, no other writer'.",
